@@ -762,9 +762,7 @@ func (fr *Frame) pseudoCallSpecs(st *State, key string, args []Val, pos token.Po
 			sc.vars[fmt.Sprintf("$%d", i)] = a
 		}
 		sc.localFrame = fr
-		if fr == top {
-			sc.at = fr.curSite
-		}
+		sc.at = top.curSite
 		nm := cs.Clause.Name
 		if nm == "" {
 			nm = mangle(key)
